@@ -372,6 +372,11 @@ class FcbOracle:
                         self.errors.append(("repeat-not-identical", "%s: unanswered frame %s repeated as %s" % (self.tag, self.last_fcv.hex(), f.hex())))
             if self.last_fcv is not None and not self.answered and f == self.last_fcv:
                 self.cur_reps += 1
+                t_rep = getattr(self, "t_rep", None)
+                if t_rep is not None and self.now is not None and self.first_tx is not None and self.now - self.first_tx > t_rep:
+                    self.errors.append(("repeat-beyond-timeout", "%s: frame %s repeated %d ms after its first transmission (repeat timeout %d ms): the repetitions do not stop, the link is not reported in error" % (
+                        self.tag, f.hex()[:40], self.now - self.first_tx, t_rep)))
+                    self.first_tx = None       # reported once per frame
             else:
                 self.first_tx, self.cur_reps = self.now, 0
             self.last_fcv = f
@@ -479,6 +484,8 @@ def fcb_check(out, mode, al, nslaves, script=None, t_ack=200, t_rep=1000):
     errs = []
     delivered = {}
     failed_since = {}
+    for o in orc.values():
+        o.t_rep = t_rep
     for e in ev:
         if e[0] == "mark":
             if ticks is not None and nmark < len(ticks):
